@@ -333,7 +333,7 @@ def rule_once(ctx):
 
 def rule_sharepath(ctx):
     """R-SHAREPATH: share and lift always lift"""
-    from ..mir import Fn, Flow, op_root, place_fields
+    from ..mir import Fn, Flow, op_root, place_fields, rvalue_places
     fx = ctx.fx
     res = RuleResult("R-SHAREPATH", "share (fun2core) and lift (core2axcut) are called where a continuation / statement is about to be used more than "
                      "once: on every path to their return they add the definition to the collection of lifted definitions (the result is the "
@@ -373,7 +373,131 @@ def rule_sharepath(ctx):
                         "dropped from the program" % (f["key"].split("::")[-1], ("the part `%s` of its argument" % ".".join(partial[0][2])) if partial else "not its argument"),
                         fn.file, fn.line)
         else:
-            res.inst(ikey, fn.file, fn.line, "ok", "paths that do not lift hand the argument back unchanged")
+            # the argument is handed back only where its *shape* says that it is small: the switch that opens the way to such a return
+            # tests the variant of the argument (directly, or in a helper that does nothing but look at variants), and the variants
+            # sent that way have no sub-terms.  A guard computed some other way - a size measured by a recursive function, a counter,
+            # a flag - lets a continuation of unbounded size be copied to every use
+            def leads_out(b0):
+                ws, sn = [b0], set()
+                while ws:
+                    x = ws.pop()
+                    if x in sn or x not in fn.reach or x in pushes:
+                        continue
+                    sn.add(x)
+                    if f["blocks"][x]["term"]["k"] == "return":
+                        return True
+                    ws.extend(fn.succ[x])
+                return False
+
+            def leads_push(b0):
+                ws, sn = [b0], set()
+                while ws:
+                    x = ws.pop()
+                    if x in sn or x not in fn.reach:
+                        continue
+                    sn.add(x)
+                    if x in pushes:
+                        return True
+                    ws.extend(fn.succ[x])
+                return False
+
+            def leafish(adt, names_):
+                A = fx.adts.get(adt)
+                if not A:
+                    return False
+                for v_ in A["variants"]:
+                    if v_["name"] in names_:
+                        for fd in v_["fields"]:
+                            inner = fx.adts.get(fd.get("core") or "")
+                            tys = [fd["ty"]] + ([x["ty"] for vv in inner["variants"] for x in vv["fields"]] if inner else [])
+                            if any(w in ty_ for ty_ in tys for w in ("Rc<", "Statement", "Term<", "Arguments", "Vec<", "Box<", "Clause")):
+                                return False
+                return True
+
+            def shape_helper(k2, depth=0):
+                """the helper only looks at variants: no loop, no call into the workspace except helpers of the same kind"""
+                g = fx.fns.get(k2)
+                if not g or depth > 2:
+                    return False
+                gfn = Fn(g)
+                if any(t_ in gfn.reach_from(t_) for t_ in gfn.reach if any(s_ == t_ for s_ in gfn.reach_from(t_))):
+                    return False
+                for bi_, t_ in gfn.calls():
+                    k3 = t_.get("resolved_key") or t_.get("callee_key")
+                    if k3 == k2:
+                        return False
+                    if k3 in fx.fns and fx.fns[k3]["crate"] == g["crate"] and not shape_helper(k3, depth + 1):
+                        return False
+                return any(s_["k"] == "assign" and s_["rv"]["k"] == "discr" for b_ in g["blocks"] for s_ in b_["stmts"])
+            bad = None
+            for bi_ in sorted(fn.reach):
+                t_ = f["blocks"][bi_]["term"]
+                if t_["k"] != "switch":
+                    continue
+                succs = [b for _v, b in t_["targets"]] + [t_["otherwise"]]
+                outs_ = [b for b in succs if leads_out(b)]
+                if not outs_ or not any(leads_push(b) and not leads_out(b) for b in succs) and not any(leads_push(b) for b in succs if b not in outs_):
+                    continue
+                if all(leads_out(b) for b in succs) and not any(leads_push(b) and not leads_out(b) for b in succs):
+                    continue
+                # what is tested
+                l0 = op_root(t_["discr"])
+                kind = None
+                ws, sn = [l0], set()
+                while ws and kind is None:
+                    l1 = ws.pop()
+                    if l1 is None or l1 in sn:
+                        continue
+                    sn.add(l1)
+                    for d in fn.defs().get(l1, []):
+                        if d["kind"] == "assign" and d["rv"]["k"] == "discr":
+                            root = d["rv"]["pl"]["l"]
+                            o_ = flow.origins(root, ())
+                            if any(o[0] == "arg" and o[1] in tree for o in o_) or root in tree:
+                                adt_ = fn.local_adt(root) or fn.local_core(root)
+                                names_all = [v_["name"] for v_ in (fx.adts.get(adt_) or {"variants": []})["variants"]]
+                                out_names = set()
+                                named = set()
+                                for val, b in t_["targets"]:
+                                    if val < len(names_all):
+                                        named.add(names_all[val])
+                                        if leads_out(b) and not (b in pushes):
+                                            out_names.add(names_all[val])
+                                if leads_out(t_["otherwise"]):
+                                    out_names |= set(names_all) - named
+                                kind = "shape-ok" if adt_ and leafish(adt_, out_names) else "shape-big:%s" % ",".join(sorted(out_names))
+                            else:
+                                kind = "other-discr"
+                        elif d["kind"] == "call":
+                            k2 = d["term"].get("resolved_key") or d["term"].get("callee_key")
+                            if k2 in fx.fns and fx.fns[k2]["crate"] == f["crate"]:
+                                kind = "shape-ok" if shape_helper(k2) else "computed:%s" % k2.split("::")[-1]
+                            elif d["term"].get("callee_name") in ("deref", "as_ref", "borrow", "clone", "not", "eq", "ne"):
+                                ws.extend(op_root(a_) for a_ in d["term"]["args"])
+                            else:
+                                kind = "computed:%s" % (d["term"].get("callee_name") or "?")
+                        elif d["kind"] == "assign":
+                            rv_ = d["rv"]
+                            if rv_["k"] == "binop":
+                                for o_ in (rv_["a"], rv_["b"]):
+                                    ws.append(op_root(o_))
+                            else:
+                                for pl_, _r in rvalue_places(rv_):
+                                    ws.append(pl_["l"])
+                        elif d["kind"] == "arg":
+                            kind = "parameter"
+                if kind and kind != "shape-ok":
+                    bad = (bi_, kind, t_)
+                    break
+            if bad:
+                bi_, kind, t_ = bad
+                why = {"shape-big": "variants that have sub-terms (%s)" % kind.split(":", 1)[-1], "computed": "a value computed by %s, not by the variant of the argument" % kind.split(":", 1)[-1],
+                       "other-discr": "the variant of something other than the argument", "parameter": "a parameter"}[kind.split(":")[0]]
+                res.inst(ikey, t_["sp"]["file"], t_["sp"]["line"], "violation")
+                res.violate(ikey, "%s hands its argument back unshared on a path chosen by %s: a continuation of any size can then reach every use "
+                            "as a copy, and nested branch points double the program" % (f["key"].split("::")[-1], why), t_["sp"]["file"], t_["sp"]["line"])
+            else:
+                res.inst(ikey, fn.file, fn.line, "ok", "paths that do not lift hand the argument back unchanged, chosen by its variant (leaf shapes)")
     return res
 
 
